@@ -801,6 +801,11 @@ func (sc *scen) cappedBook() bool {
 	if g.chance(0.3) {
 		sc.place(B, id, "M", minBid, sc.sd, bi(1)) // a dust level below
 	}
+	if g.chance(0.35) {
+		// somebody sends selling coins to the selling reserve: what is SOLD stays what was offered
+		// (a lower price level must not start to "fit" because the escrow holds more)
+		sc.do(fmt.Sprintf("gift %d S%d %d %s", sc.owner, id, sc.sd, add(q1, q2)))
+	}
 	sc.noise()
 	if !sc.block(end) {
 		return false
